@@ -571,10 +571,14 @@ class World(StackWorld):
         what = cfg["what"] = ch.pick(("flip-type", "garbage", "truncated", "out-of-phase", "session-raises-onMessage",
                                       "session-raises-onOpen", "not-a-list", "unknown-type"), "what")
         sess = self.new_session("E")
+        # (the text of the session's exception ends up in the close reason: it may be long, and it may be long only when
+        # counted in octets - 100 Cyrillic or CJK characters are 200 or 300 octets)
+        etext = ch.pick(("session %s fails", "session %s fails: " + "x" * 200, "сессия %s: " + "ошибка обработки сообщения " * 4,
+                         "%s: " + "処理に失敗しました" * 9), "exception-text", (3, 1, 1.5, 1.5))
         if what == "session-raises-onOpen":
-            sess.hooks["onOpen"] = lambda t: (_ for _ in ()).throw(RuntimeError("session onOpen fails"))
+            sess.hooks["onOpen"] = lambda t: (_ for _ in ()).throw(RuntimeError(etext % "onOpen"))
         if what == "session-raises-onMessage":
-            sess.hooks["onMessage"] = lambda m: (_ for _ in ()).throw(RuntimeError("session onMessage fails"))
+            sess.hooks["onMessage"] = lambda m: (_ for _ in ()).throw(RuntimeError(etext % "onMessage"))
         if what == "out-of-phase":
             from autobahn.wamp.exception import ProtocolError
             sess.hooks["onMessage"] = lambda m: (_ for _ in ()).throw(ProtocolError("message out of phase"))
@@ -974,6 +978,11 @@ class World(StackWorld):
                 run.probe("message-delivered-after-violation:" + kind)
         if kind == "ws":
             m = e.monitor
+            for suffix, sig, detail in m.errors:
+                # what the endpoint wrote while failing the connection is a well-formed frame sequence too: a malformed
+                # close frame never tells the peer the status
+                run.violate("C13.fail-closed", "ws-malformed-octets-written:%s:%s" % (sig, what), detail)
+            del m.errors[:]
             want = 1002 if self.expect_reason == "protocol" else 1011
             if getattr(self, "local_close_first", False):
                 if m.close_count > 1:
